@@ -180,8 +180,15 @@ class HedGroup:
             else:
                 group_list.append((child, child._sorted(update_self)))
 
-        tag_list.sort(key=lambda x: str(x[0]))
-        group_list.sort(key=lambda x: str(x[0]))
+        # Order by what duplicate detection compares: the case-insensitive, recursively sorted form.
+        # (The text of the child itself is only a tie-break, so equal items are always neighbours.)
+        def _canonical(item):
+            if isinstance(item, list):
+                return "(" + ",".join(_canonical(sub_item) for sub_item in item) + ")"
+            return str(item).casefold()
+
+        tag_list.sort(key=lambda x: (_canonical(x[1]), str(x[0])))
+        group_list.sort(key=lambda x: (_canonical(x[1]), str(x[0])))
         output_list = tag_list + group_list
         if update_self:
             self.children = [x[0] for x in output_list]
